@@ -26,6 +26,10 @@ type c11Fault struct {
 	State   string `json:"state,omitempty"`
 	End     string `json:"end,omitempty"` // inbound: close, reset, cease
 	Sub     *uint8 `json:"sub,omitempty"` // subcode of the Cease (nil: 4)
+	// Partial: for close / reset, that many octets of a 40-octet message (header and
+	// part of the body) are sent before the connection goes away: a transport fault
+	// inside a message is still a transport fault
+	Partial int `json:"partial,omitempty"`
 }
 
 type c11Case struct {
@@ -95,7 +99,17 @@ func c11Prop(t *testing.T, r *hx.Run) func(c c11Case) hx.Verdict {
 			runID := 0
 			// endSession ends a session/connection from the remote side
 			ceaseSub := uint8(4)
+			partial := 0
 			end := func(cn *memnet.Conn, how string) {
+				if partial > 0 && (how == "close" || how == "reset") {
+					m := wire.Frame(wire.TypeUpdate, make([]byte, 21))
+					if len(cn.Snapshot().Writes) <= 1 {
+						// still in OpenSent: the incomplete message is the remote's OPEN
+						m = wire.NewOpen(64513, 90, 0x0a000002).Frame()
+					}
+					cn.RemoteSend(m[:min(partial, len(m)-1)], nil)
+					w.Settle()
+				}
 				switch how {
 				case "reset":
 					cn.RemoteReset()
@@ -119,6 +133,7 @@ func c11Prop(t *testing.T, r *hx.Run) func(c c11Case) hx.Verdict {
 				if f.Sub != nil {
 					ceaseSub = *f.Sub
 				}
+				partial = f.Partial
 				done := len(w.Net.Dials())
 				if fi == 0 {
 					done = 0 // the attempt made at Serve time already follows fault 0's plan
@@ -348,6 +363,11 @@ func genC11(rt *rapid.T) c11Case {
 		case "inbound":
 			f.State = pick(rt, "istate", stOpenSent, stOpenConfirm, stEstablished, stEstablished)
 			f.End = pick(rt, "iend", "close", "reset", "cease")
+		}
+		if f.Kind == "close" || f.Kind == "reset" || f.End == "close" || f.End == "reset" {
+			if rapid.IntRange(0, 2).Draw(rt, "withpartial") == 0 {
+				f.Partial = pick(rt, "partial", 1, 18, 19, 20, 30, 39)
+			}
 		}
 		if f.Kind == "cease" || f.End == "cease" {
 			if rapid.Bool().Draw(rt, "withsub") {
